@@ -9,3 +9,4 @@ import PurlModel.Checksum
 import PurlModel.Purl
 import PurlModel.Ops
 import PurlModel.Generated.UnicodeData
+import PurlModel.RustOrd
